@@ -39,7 +39,11 @@ Nests == {"direct", "elem", "mapkey", "mapval", "alias", "nested",
           \* a map of lists (query string only: qa1[k]=v1&qa1[k]=v2)
           "mapval_elem",
           \* a map attribute whose entries ARE the query string (MapParams("a1")): k1=v1&k2=v2
-          "mapparams"}
+          "mapparams",
+          \* a NAMED collection: the attribute's type is a user type that IS a list / a map (Type("M1A1List", ArrayOf(K))) - it must
+          \* behave exactly like the inline ArrayOf / MapOf wherever that is allowed
+          "alias_elem", "alias_mapval"}
+NamedCollNests == {"alias_elem", "alias_mapval"}
 Whole == {"whole", "whole_elem", "whole_mapval"}
 Deep == {"nested_mapkey", "nested_elem", "elem_nested", "mapval_nested", "mapkey_alias"}
 StrShapes == {"plain", "slash", "pcthex", "space", "uni", "plus"}
@@ -51,8 +55,8 @@ Absent == V("absent", 0, "plain", 0)
 Attr(k, l, m, r, ns) == [kind |-> k, loc |-> l, mode |-> m, rule |-> r, nest |-> ns]
 
 NumKinds == {"int", "uint", "float"} \cup WideKinds
-DefaultedContainerNests == {"elem", "mapkey", "mapval"}
-QueryMapNests == {"mapkey", "mapval", "mapval_elem", "whole_mapval", "mapparams"}
+DefaultedContainerNests == {"elem", "mapkey", "mapval", "alias_elem", "alias_mapval"}
+QueryMapNests == {"mapkey", "mapval", "mapval_elem", "whole_mapval", "mapparams", "alias_mapval"}
 FloatKinds == {"float", "float32"}
 WFAttr(a) ==
   \* (the payload attribute behind a path parameter may be optional or carry a default: the generated decoder still hands a
@@ -61,7 +65,14 @@ WFAttr(a) ==
   /\ (a.kind \in WideKinds => a.nest \in {"direct", "alias", "elem", "mapval", "whole"} /\ a.rule \in {"none", "min", "xmax"})
   \* (Bytes outside a body: the raw bytes are the text of the parameter / header / cookie - base64 only in JSON bodies)
   /\ (a.loc = "cookie" => a.nest \in {"direct", "alias"})
-  /\ (a.loc \in {"query", "header"} => a.nest \in {"direct", "alias", "elem", "whole", "whole_elem"} \cup QueryMapNests)
+  /\ (a.loc \in {"query", "header"} => a.nest \in {"direct", "alias", "elem", "alias_elem", "whole", "whole_elem"} \cup QueryMapNests)
+  \* (named collections: where the inline form goes - lists in body / query / header, maps in body / query; a few rules only)
+  /\ (a.nest \in NamedCollNests => a.loc \in {"body", "query", "header"} /\ a.kind \notin WideKinds \cup {"any", "bytes"} /\ a.rule \in {"none", "min", "pattern", "cminlen"}
+                                    \* NOT with a Default yet: on the unchanged tree a Default on an attribute of a named list / map type is a
+                                    \* finding of its own (body: an explicitly empty value is left out and comes back as the default, MinLength
+                                    \* is applied to the unset value before the default is filled in; query / header: the default is never filled
+                                    \* in) - reported, to be modelled as a named deviation before the mode is enumerated
+                                    /\ a.mode \in {"required", "optional"})
   \* map-valued query parameters: qa1[key]=value; the whole payload as the query string (MapParams()): key=value
   /\ (a.nest \in QueryMapNests => a.loc \in {"query", "body"} /\ (a.nest \in {"mapval_elem", "mapparams"} => a.loc = "query" /\ a.kind \notin WideKinds \cup {"any"}))
   /\ (a.nest \in {"nested"} \cup Deep => a.loc = "body")
@@ -74,9 +85,10 @@ WFAttr(a) ==
   /\ (a.rule \in {"minlen", "maxlen", "lenrange"} => a.kind \in {"string", "bytes"})
   /\ (a.rule \in {"pattern", "format"} => a.kind = "string")
   /\ (a.rule = "enum" => a.kind \in {"int", "string"})
-  /\ (a.rule \in {"cminlen", "cmaxlen"} => a.nest \in {"elem", "mapval", "whole_elem", "whole_mapval"})
+  /\ (a.rule \in {"cminlen", "cmaxlen"} => a.nest \in {"elem", "mapval", "whole_elem", "whole_mapval"} \cup NamedCollNests)
   \* a Default on a list / map attribute (DefaultedContainerNests): in bodies only
-  /\ (a.mode = "default" => (a.nest \in {"direct", "alias"} \/ (a.nest \in DefaultedContainerNests /\ a.loc = "body")) /\ a.kind # "bytes")
+  /\ (a.mode = "default" => (a.nest \in {"direct", "alias"} \/ (a.nest \in DefaultedContainerNests /\ a.loc = "body")
+                            \/ (a.nest \in {"elem", "alias_elem"} /\ a.loc \in {"query", "header"})) /\ a.kind # "bytes")       \* (a Default on a list parameter / header)
   /\ (a.nest \in Whole => a.mode = "required" /\ a.kind \notin {"any"} /\ a.loc \in {"body", "query", "header", "path"})
   /\ (a.nest \in {"whole_elem", "whole_mapval"} /\ a.loc # "body" => (a.nest = "whole_elem" /\ a.loc \in {"query", "header"}) \/ (a.nest = "whole_mapval" /\ a.loc = "query"))
   \* a required non-pointer field cannot be told from its zero value on the Go side; nothing to exclude,
@@ -123,7 +135,7 @@ ValsOf(a) ==
        ELSE {[v EXCEPT !.cn = c] : v \in leaf, c \in (IF a.nest = "mapkey" THEN {1} ELSE {1, 2})}
 
 \* can the caller leave the attribute unset?  (Go: pointer field, nil slice or nil map)
-CanBeAbsent(a) == a.mode \in {"optional", "treq"} \/ (a.mode = "required" /\ a.nest \in {"elem", "mapkey", "mapval", "mapval_elem", "mapparams", "nested"} \cup Deep) \/ (a.mode = "required" /\ a.kind = "bytes")
+CanBeAbsent(a) == a.mode \in {"optional", "treq"} \/ (a.mode = "required" /\ a.nest \in {"elem", "mapkey", "mapval", "mapval_elem", "mapparams", "nested"} \cup Deep \cup NamedCollNests) \/ (a.mode = "required" /\ a.kind = "bytes")
                   \/ (a.mode = "default" /\ a.nest \in DefaultedContainerNests)       \* (a nil slice / map: the default stands in)
 \* an empty string cannot be a path segment, and neither can "nothing": the envelope does not send one (the caller of a
 \* method with a path parameter supplies it, whatever the payload type says)
@@ -149,7 +161,7 @@ LeafDefault(a) == CASE a.kind = "int" -> V("int", 3, "plain", 1)
                   [] OTHER -> Absent
 \* the default of a list / map of values is two unremarkable entries, the last one the kind's usual default leaf (two, so that it
 \* satisfies a MinLength(Lo) on the collection); of a map keyed by the leaf: one entry
-DefaultOf(a) == IF a.nest \in {"elem", "mapval"} /\ LeafDefault(a) # Absent THEN [LeafDefault(a) EXCEPT !.cn = 2] ELSE LeafDefault(a)
+DefaultOf(a) == IF a.nest \in {"elem", "mapval"} \cup NamedCollNests /\ LeafDefault(a) # Absent THEN [LeafDefault(a) EXCEPT !.cn = 2] ELSE LeafDefault(a)
 IsZero(v) == v # Absent /\ v.n = 0 /\ v.s \in {"plain", "empty"} /\ v.cls # "bytes"
 
 \* ---------------------------------------------------------------- the rules (the oracle of C04)
